@@ -67,6 +67,27 @@ def parse_harnesses():
     return out
 
 
+def module_deps(mod):
+    path = os.path.join(KANI_DIR, mod, 'kani_proofs.rs')
+    deps = []
+    if os.path.exists(path):
+        for ln in open(path):
+            if ln.startswith('// @deps '):
+                deps += [d.strip() for d in ln[9:].split(',') if d.strip()]
+    return deps
+
+
+def module_closure(modules):
+    seen, todo = set(), list(modules)
+    while todo:
+        m = todo.pop()
+        if m in seen:
+            continue
+        seen.add(m)
+        todo += module_deps(m)
+    return sorted(seen)
+
+
 def props_of(h):
     return sorted({i.split('.')[0] for i in h['ids']})
 
@@ -81,8 +102,7 @@ class Scratch:
         self.dir = tempfile.mkdtemp(prefix='kira-kani-', dir=base)
         self.crate = os.path.join(self.dir, 'kira')
         self.keep = keep
-        # `info` carries the Info constructors every object-level harness module uses
-        self.modules = sorted(set(modules) | ({'info'} if modules else set()))
+        self.modules = module_closure(modules)
         self.injected = []
         self._build()
 
